@@ -76,6 +76,7 @@ type aResult struct {
 	Queries    int            `json:"queries"`
 	Nontrivial int            `json:"nontrivial"`
 	Aborted    int            `json:"aborted"`
+	Family     int            `json:"family"`
 }
 
 var aSerial int
@@ -131,10 +132,10 @@ func (t ntop) kind() string {
 }
 
 // nodeTops reads the newest revision of the key back from every node's database.
-func nodeTops(cl *cluster, id string) []ntop {
+func nodeTops(cl *cluster, name, id string) []ntop {
 	tops := make([]ntop, len(cl.nodes))
 	for i := range cl.nodes {
-		res, err := cl.nodes[i].db.Query(bg, &propertyv1.QueryRequest{Groups: []string{group}, Name: propName, Ids: []string{id}, Limit: 100})
+		res, err := cl.nodes[i].db.Query(bg, &propertyv1.QueryRequest{Groups: []string{group}, Name: name, Ids: []string{id}, Limit: 100})
 		if err != nil {
 			fatal("node query: %v", err)
 		}
@@ -194,7 +195,7 @@ func runA(cl *cluster, c acase, res *aResult, sink *vsink) {
 	ref := make([]ntop, len(cl.nodes))
 	tieBefore := "none"
 	tieNow := func() string {
-		if t := tieOf(nodeTops(cl, id), ref); t != "none" {
+		if t := tieOf(nodeTops(cl, propName, id), ref); t != "none" {
 			return t
 		}
 		return tieBefore
@@ -204,6 +205,25 @@ func runA(cl *cluster, c acase, res *aResult, sink *vsink) {
 			res.Outcomes = map[string]int{}
 		}
 		res.Outcomes[k]++
+	}
+	// sibling: an unrelated property with the SAME id under another property name (keys are group/name/id), applied
+	// with every node reachable before the history starts. Nothing in the history may touch it.
+	sibResp, sibErr := cl.srv.Apply(bg, &propertyv1.ApplyRequest{Strategy: propertyv1.ApplyRequest_STRATEGY_MERGE, Property: &propertyv1.Property{
+		Metadata: &commonv1.Metadata{Group: group, Name: propName2}, Id: id,
+		Tags: []*modelv1.Tag{{Key: "a", Value: &modelv1.TagValue{Value: &modelv1.TagValue_Str{Str: &modelv1.Str{Value: "sib"}}}}},
+	}})
+	if sibErr != nil || !sibResp.Created {
+		sink.add("a/sibling: apply of the same-id property under another name failed or was not a creation", art())
+		return
+	}
+	sibRev := nodeTops(cl, propName2, id)
+	checkSibling := func(after string) {
+		for n, t := range nodeTops(cl, propName2, id) {
+			if !t.has || t.tomb || t.rev != sibRev[n].rev {
+				sink.add(fmt.Sprintf("a/sibling: node n%d no longer holds the untouched same-id property of another name live (holds %s) (cfg=%d after=%s)",
+					n, t.kind(), c.Cfg, after), art())
+			}
+		}
 	}
 	// plain reference
 	live := false
@@ -286,7 +306,7 @@ func runA(cl *cluster, c acase, res *aResult, sink *vsink) {
 		res.Ops++
 		fresh := false
 		if c.Cfg == 2 {
-			tieBefore = tieOf(nodeTops(cl, id), ref)
+			tieBefore = tieOf(nodeTops(cl, propName, id), ref)
 		}
 		// per-node reference: which nodes the operation reaches
 		reach := []int{0}
@@ -392,8 +412,11 @@ func runA(cl *cluster, c acase, res *aResult, sink *vsink) {
 		if _, err := cl.srv.VerifC18DrainRepairs(bg, true); err != nil {
 			fatal("drain: %v", err)
 		}
+		if len(sink.list) == 0 {
+			checkSibling(o.Kind)
+		}
 		if len(sink.list) == 0 && c.Cfg == 2 {
-			act := nodeTops(cl, id)
+			act := nodeTops(cl, propName, id)
 			for n := range act {
 				if act[n].has != ref[n].has || (act[n].has && (act[n].step != ref[n].step || act[n].tomb != ref[n].tomb)) {
 					rel := "same revision"
@@ -413,6 +436,17 @@ func runA(cl *cluster, c acase, res *aResult, sink *vsink) {
 		if len(sink.list) > 0 {
 			res.Aborted++
 			break
+		}
+	}
+	if len(sink.list) == 0 {
+		// the sibling through the liaison: exactly its value, and never mixed into the key's own results (judged above)
+		resp, err := cl.srv.Query(bg, &propertyv1.QueryRequest{Groups: []string{group}, Name: propName2, Ids: []string{id}})
+		res.Queries++
+		if err != nil || len(resp.Properties) != 1 || len(resp.Properties[0].Tags) != 1 || resp.Properties[0].Tags[0].Value.GetStr().GetValue() != "sib" {
+			sink.add(fmt.Sprintf("a/sibling: query of the untouched same-id property of another name does not return its value (cfg=%d)", c.Cfg), art())
+		}
+		if _, err := cl.srv.VerifC18DrainRepairs(bg, true); err != nil {
+			fatal("drain: %v", err)
 		}
 	}
 	res.Histories++
@@ -450,6 +484,27 @@ func canonicalA(c acase) bool {
 		}
 	}
 	return true
+}
+
+// familyMissedUpdateAndDelete: cfg 2 histories of depth 4 of the shape "apply on both nodes; apply while n1 is
+// unreachable; delete while n1 is unreachable; any operation": n1 comes back holding a stale LIVE older revision
+// while the newest revision (on n0) is a tombstone - no same-revision tie involved. Part of the quick tier on top of
+// the general depth 3; the thorough tier's depth 4 contains it.
+func familyMissedUpdateAndDelete(each func(acase)) {
+	al := alphabetA(2)
+	for _, o1 := range al {
+		if o1.Down || (o1.Kind != "M" && o1.Kind != "R") {
+			continue
+		}
+		for _, o2 := range al {
+			if !o2.Down || (o2.Kind != "M" && o2.Kind != "R") {
+				continue
+			}
+			for _, o4 := range al {
+				each(acase{Cfg: 2, Ops: []aop{o1, o2, {Kind: "D", Down: true}, o4}})
+			}
+		}
+	}
 }
 
 // enumerate all op sequences of exactly the given depth whose first two ops have the given prefix index.
